@@ -364,13 +364,13 @@ def c11():
 # ------------------------------------------------------------------------------------------- C12
 @prop('C12')
 def c12():
-    qs = [Q('lockop_%d' % op, 'C12/ops.cpp', 6, defs={'VF_OP': op, 'VF_CLAIM': 12}, lockinst=True, timeout=600) for op in range(1, 14)]
+    qs = [Q('lockop_%d' % op, 'C12/ops.cpp', 6, defs={'VF_OP': op, 'VF_CLAIM': 12}, lockinst=True, timeout=600) for op in range(1, 15)]
     return dict(
         queries=qs,
         level='other',
         level_text='Lock-discipline obligations per API operation, decided by bounded symbolic execution of the instrumented IR: every library function that touches state shared between threads (expectation lists, sequence lists, call counters, limits of an expectation already visible in a sequence, unlinking of linked elements) executes with the global recursive mutex held, and the mutex is balanced on every path including the exceptional one. From this it follows BY ARGUMENT (not by the solver) that conflicting accesses are ordered by the one mutex and each operation is a sequence of at most two critical sections. Schedules themselves are not explored.',
         technique='bounded symbolic execution (CBMC/SAT) of lock-instrumented IR of the real headers; obligations at the entry of shared-state functions',
-        bound='13 operations: accepted / rejected / sequenced call, creation with {IN_SEQUENCE, TIMES, RT_TIMES} in both orders, release (unsequenced, sequenced), is_satisfied/is_saturated, sequence::is_completed, REQUIRE_DESTRUCTION create/release, watched destruction (sequenced), mock destruction',
+        bound='14 operations: accepted / rejected / sequenced call, creation with {IN_SEQUENCE, TIMES, RT_TIMES} in both orders, release (unsequenced, sequenced), is_satisfied/is_saturated, sequence::is_completed, REQUIRE_DESTRUCTION create/release, watched destruction (sequenced), mock destruction, release of a sequenced expectation that outlived its mock',
         outside='exhaustive or randomised thread schedules, std::atomic semantics of the died flag, custom mutex configurations, sequence-object destruction concurrent with use (caller obligation); a sequential symbolic executor cannot quantify over interleavings',
         assumptions=['vf/lockinst.py names the shared-state functions (listed in its header); private clause lists of an expectation under construction are not shared',
                      'single global recursive mutex modelled as a depth counter'],
@@ -494,14 +494,16 @@ def c20():
         for y in (0, 1, 2, 3):
             for end in (0, 1, 2):
                 for calls in (1, 2):
-                    qs.append(Q('co_eager%d_y%d_end%d_calls%d' % (eager, y, end, calls), 'C20/co.cpp', 8, std='c++20',
-                                defs={'VF_EAGER': eager, 'VF_Y': y, 'VF_END': end, 'VF_CALLS': calls, 'VF_CLAIM': 20}, tv=(i % 6 == 0), timeout=600))
-                    i += 1
+                    for rfirst in (0, 1):
+                        if rfirst and (y == 0 or calls == 2): continue
+                        qs.append(Q('co_eager%d_y%d_end%d_calls%d%s' % (eager, y, end, calls, '_retfirst' if rfirst else ''), 'C20/co.cpp', 8, std='c++20',
+                                    defs={'VF_EAGER': eager, 'VF_Y': y, 'VF_END': end, 'VF_CALLS': calls, 'VF_RFIRST': rfirst, 'VF_CLAIM': 20}, tv=(i % 6 == 0), timeout=600))
+                        i += 1
     return dict(
         queries=qs,
         level='model_checking',
         level_text='Bounded: for a harness-local coroutine type with lazy and with eager start, 0..3 CO_YIELD clauses, CO_RETURN(value) / CO_THROW / throwing CO_RETURN expression, one or two calls handled by the same expectation and resumed interleaved: matching, counting and SIDE_EFFECT happen at the call; the coroutine yields the clause values in declaration order, then the return value, or raises the exception where the result is taken and never at the call; the coroutines of two calls are independent; all 32-bit clause values; coroutine frames are heap objects under CBMC pointer checks.',
-        bound='clause lists with 0..3 CO_YIELD x 3 endings x eager/lazy x 1..2 calls (48 shapes); clause expressions touch the call arguments only where they are alive (first clause of an eager coroutine), per the documented lifetime caveat',
+        bound='clause lists with 0..3 CO_YIELD x 3 endings x eager/lazy x 1..2 calls, the ending clause written after or before the yields (66 shapes); clause expressions touch the call arguments only where they are alive (first clause of an eager coroutine), per the documented lifetime caveat',
         outside='generator-shaped (range) return types, std::generator (not in this libstdc++), void coroutines, CO_YIELD on move-only values',
         assumptions=['C++20 lowering of coroutines by clang-14 (CoroSplit at -O1) is what is executed'],
     )
